@@ -62,6 +62,6 @@ async fn answered_ask_does_not_count_as_a_wait_edge() {
     println!("go = {:?}, reverse = {:?}", go_r, rev_r);
     assert_eq!(go_r.unwrap(), 1);
     assert_eq!(rev_r.expect("B asked A after A's ask had been answered: no cycle of unanswered asks, yet B failed"), 7);
-    drop((a, b));
-    let _ = ja.await; let _ = jb.await;
+    // (A and B hold references to each other, so they stay alive: no join here)
+    drop((a, b, ja, jb));
 }
